@@ -1,5 +1,6 @@
 import LnModel.Sexp
 import LnModel.Ident
+import LnModel.FsExec
 /-! Line-protocol driver: one s-expression request per line on stdin, one canonical
 s-expression result per line on stdout. -/
 namespace Ln.Driver
@@ -18,7 +19,57 @@ def exc (r : Except Panic Text) : Sexp :=
 
 def bool (b : Bool) : Sexp := .atom (if b then "true" else "false")
 
+def contentOf : Sexp → Option Content
+  | .list [.atom "text", .str t] => some (.text t)
+  | .list (.atom "binary" :: bs) => some (.binary (bs.filterMap fun b => match b with | .atom a => a.toNat? | _ => none))
+  | _ => none
+
+def contentTo : Content → Sexp
+  | .text t => .list [.atom "text", .str t]
+  | .binary bs => .list (.atom "binary" :: bs.map fun b => .atom (toString b))
+
+def treeOf : Sexp → Option FsL
+  | .list (.atom "tree" :: es) => es.mapM fun e => match e with
+      | .list [.str p, c] => (contentOf c).map fun c => (p, c)
+      | _ => none
+  | _ => none
+
+def treeTo (l : FsL) : Sexp := .list (.atom "tree" :: l.map fun (p, c) => .list [.str p, contentTo c])
+
+def codeOf : Sexp → Option CodeSpec
+  | .list [.atom "plain", .str c] => some (.plain c)
+  | .list [.atom "lib", .str f, .str s] => some (.lib f s)
+  | _ => none
+
+def outsOf : Sexp → Option (List Write)
+  | .list (.atom "outs" :: es) => es.mapM fun e => match e with
+      | .list [.str p, c] => (codeOf c).map fun c => (p, c)
+      | _ => none
+  | _ => none
+
+def stepFs (req : Sexp) : Option Sexp :=
+  match req with
+  | .list [.atom "run", t, .list (.atom "gens" :: gs)] => do
+      let l ← treeOf t
+      let gens ← gs.mapM outsOf
+      pure (treeTo (runAllL gens l))
+  | .list [.atom "crashok", t0, t1, o] => do
+      let l0 ← treeOf t0
+      let l1 ← treeOf t1
+      let outs ← outsOf o
+      pure (bool (isCrashState outs l0 l1))
+  | .list [.atom "crashwhy", t0, t1, o] => do
+      let l0 ← treeOf t0
+      let l1 ← treeOf t1
+      let outs ← outsOf o
+      pure (.list ((crashStateFailures outs l0 l1).map .str))
+  | .list [.atom "in_scope", .str p] => some (bool (inScope p))
+  | _ => none
+
 def step (req : Sexp) : Sexp :=
+  match stepFs req with
+  | some r => r
+  | none =>
   match req with
   | .list [.atom "sanitize", .str s] => exc (sanitize s)
   | .list [.atom "sanitize_struct", .str s] => exc (sanitizeStruct s)
